@@ -275,7 +275,32 @@ pub fn v3_from_lib(p: &v3::Packet) -> RP {
 /// Binary fields are handed to the crate the way applications hold them: sometimes as an owned
 /// buffer, sometimes as a window into a larger shared buffer (a `Bytes` sub-slice at a non-zero,
 /// odd offset with spare bytes behind it). Chosen from the content, so a case replays identically.
+thread_local! {
+    /// binary fields already built for the packet under construction
+    static ARENA: std::cell::RefCell<Vec<Bytes>> = std::cell::RefCell::new(Vec::new());
+}
+
+/// Start a new packet: forget the fields of the previous one.
+fn arena_reset() {
+    ARENA.with(|a| a.borrow_mut().clear());
+}
+
 fn bytes_of(v: &[u8]) -> Bytes {
+    // A field whose content is a prefix of (or equal to) a binary field built earlier for the same
+    // packet becomes a window into that very buffer — same start address, as when an application cuts
+    // a correlation id and a payload out of one receive buffer, or clones one `Bytes` into two fields.
+    if !v.is_empty() {
+        let hit = ARENA.with(|a| a.borrow().iter().find(|b| b.len() >= v.len() && &b[..v.len()] == v).cloned());
+        if let Some(b) = hit {
+            return b.slice(..v.len());
+        }
+    }
+    let b = bytes_fresh(v);
+    ARENA.with(|a| a.borrow_mut().push(b.clone()));
+    b
+}
+
+fn bytes_fresh(v: &[u8]) -> Bytes {
     let h = v.len().wrapping_mul(31) ^ v.first().copied().unwrap_or(0) as usize;
     if h % 3 == 0 {
         let mut big = Vec::with_capacity(v.len() + 12);
@@ -289,6 +314,7 @@ fn bytes_of(v: &[u8]) -> Bytes {
 }
 
 pub fn v3_to_lib(p: &RP) -> Option<v3::Packet> {
+    arena_reset();
     Some(match p {
         RP::Connect { name, level, clean, keep_alive, client_id, will, username, password, props } => {
             if !props.is_empty() {
@@ -932,6 +958,7 @@ pub fn v5_from_lib(p: &v5::Packet) -> RP {
 }
 
 pub fn v5_to_lib(p: &RP) -> Option<v5::Packet> {
+    arena_reset();
     Some(match p {
         RP::Connect { name, level, clean, keep_alive, client_id, will, username, password, props } => {
             let protocol = proto_from(name, *level)?;
